@@ -57,6 +57,12 @@ Theorem C06_find_unique (c : ctable) (key : colname) (q : query) (items : rtable
 Proof. intros R M I v. rewrite <- (ref_find c key q R). exact (find_unique (abs c) key q items M I v). Qed.
 Print Assumptions C06_find_unique.
 
+(* one_or_none: None when nothing is selected, the single selected row, ValueError when several *)
+Theorem C06_one_or_none (c : ctable) (q : query) : Rect c ->
+  c_one_or_none c q = r_inc (abs c) q >>= fun t => match recs t with [] => Ok None | [x] => Ok (Some x) | _ => Err EValue end.
+Proof. intros R. rewrite <- (ref_one_or_none c q R). reflexivity. Qed.
+Print Assumptions C06_one_or_none.
+
 (* non-vacuity: 1 == 1.0 match, the shared NaN object matches itself in a list, a fresh NaN does not *)
 Example C06_example :
   let c : ctable := [("a"%string, [CNum false 2; CNaN 0; CNum true 2; CNone]); ("b"%string, [CNum false 0; CNum false 2; CNum false 4; CNum false 6])] in
